@@ -41,6 +41,18 @@ fn many_funcs(rng: &mut Rng, n: usize, bad: &[usize]) -> Vec<u8> {
         }
     }
     m.section(&ex);
+    // an active data segment whose only users (`data.drop`, `memory.init`) sit in one or two
+    // functions, often the last ones: whether the data count section is written is decided by a
+    // scan over all functions
+    let with_data = rng.chance(1, 2);
+    let mut droppers: Vec<usize> = vec![];
+    if with_data {
+        droppers.push(if rng.chance(1, 2) { n - 1 } else { rng.below(n as u64) as usize });
+        if rng.chance(1, 4) {
+            droppers.push(n - 1 - rng.below(n.min(4) as u64) as usize);
+        }
+        m.section(&DataCountSection { count: 1 });
+    }
     let mut code = CodeSection::new();
     let equal_size = rng.chance(1, 3);
     for i in 0..n {
@@ -55,6 +67,16 @@ fn many_funcs(rng: &mut Rng, n: usize, bad: &[usize]) -> Vec<u8> {
                 if tys[callee] == 0 {
                     f.instruction(&Instruction::Call(callee as u32));
                 }
+            }
+        }
+        if droppers.contains(&i) {
+            if i % 2 == 0 {
+                f.instruction(&Instruction::DataDrop(0));
+            } else {
+                f.instruction(&Instruction::I32Const(0));
+                f.instruction(&Instruction::I32Const(0));
+                f.instruction(&Instruction::I32Const(0));
+                f.instruction(&Instruction::MemoryInit { mem: 0, data_index: 0 });
             }
         }
         // fix up calls: simplest is to avoid them when types differ; regenerate deterministic tail
@@ -74,6 +96,11 @@ fn many_funcs(rng: &mut Rng, n: usize, bad: &[usize]) -> Vec<u8> {
         code.function(&f);
     }
     m.section(&code);
+    if with_data {
+        let mut data = DataSection::new();
+        data.active(0, &ConstExpr::i32_const(16), [1u8, 2, 3, 4]);
+        m.section(&data);
+    }
     m.finish()
 }
 
@@ -89,7 +116,7 @@ fn case_input(seed: u64, case: u64) -> (Vec<u8>, String) {
             (gen::gen_valid(&mut rng, &g).0, "generated".into())
         }
         1 => {
-            let n = *rng.pick(&[2usize, 17, 64, 130, 300]);
+            let n = *rng.pick(&[2usize, 17, 23, 64, 130, 300]);
             (many_funcs(&mut rng, n, &[]), format!("many-funcs n={}", n))
         }
         2 => {
